@@ -142,6 +142,14 @@ func All(seed int64) []Input {
 			add("font-indep-"+c, "type1", data)
 		}
 	}
+	// the other line-end conventions (classic Mac: CR, DOS: CR LF), in the hexadecimal and in the binary form
+	for _, c := range []string{"pfa", "bin"} {
+		for _, el := range []string{"cr", "crlf"} {
+			if data, err := indep.WriteFont(spec, indep.Layout{Cont: c, LenIV: 4, Names: "RD", Enc: "std", Eol: el}); err == nil {
+				add("font-indep-"+c+"-"+el, "type1", data)
+			}
+		}
+	}
 	// charstrings that lean on the reader's scratch state (OtherSubrs results, flex points): the two
 	// malformed ones come first, so that a run over the corpus meets them once before and once after
 	// the fonts that fill that state (a leak from one read into the next changes what they give)
